@@ -17,18 +17,18 @@ CMDS = {
 def check(run):
     p = run.prog
     roots = [p.fn(r) for r in ROOTS]
-    ief.run_ief(run, 'C17', roots, triage=triage.IEF)
-    run.floor('C17-IEF', run.units['ief_functions_checked'], 180)
-    flags(run, p)
-    sameapi(run, p)
-    exits(run, p)
-    defuse(run, p)
-    rownum(run, p)
-    nowrite(run, p)
-    extcase(run, p)
-    defaults(run, p)
-    flagtable(run, p)
-    applicable(run, p)
+    run.attempt(ief.run_ief, run, 'C17', roots, triage=triage.IEF)
+    run.floor('C17-IEF', run.units.get('ief_functions_checked', 0), 180)
+    run.attempt(flags, run, p)
+    run.attempt(sameapi, run, p)
+    run.attempt(exits, run, p)
+    run.attempt(defuse, run, p)
+    run.attempt(rownum, run, p)
+    run.attempt(nowrite, run, p)
+    run.attempt(extcase, run, p)
+    run.attempt(defaults, run, p)
+    run.attempt(flagtable, run, p)
+    run.attempt(applicable, run, p)
     from .common import observed_rule
     calc = p.cls('PandasConstraintCalculator')
     n = observed_rule(run, 'C17-OBSERVED', p, list(calc.methods.values()),
@@ -36,7 +36,7 @@ def check(run):
                       'categorical column\'s declared levels (parquet keeps unused categories)')
     run.floor('C17-OBSERVED', n, 15)
     from .c01 import datelang
-    datelang(run, p)
+    run.attempt(datelang, run, p)
     run.rules['C17-DATELANG'] = run.rules.pop('C01-DATELANG') + ' (the command line always goes through a .tdda file)'
     for o in run.obs:
         if o.rule == 'C01-DATELANG':
